@@ -1207,6 +1207,16 @@ def run(run):
         plan.append((tuple(rng.choice(ACTIONS)
                            for _ in range(rng.randrange(3, maxlen + 1))),
                      rng.random() < 0.3))
+    import gc
+    import os
+
+    def resources():
+        gc.collect()
+        return (len(os.listdir('/proc/self/fd')), sum(
+            1 for t in threading.enumerate()
+            if t.name.startswith('Networking Thread')))
+    res0 = resources()
+    res_hist = []
     for i, (actions, encrypted) in enumerate(plan):
         if not run.mine(i):
             continue
@@ -1218,11 +1228,31 @@ def run(run):
                 break
         if encrypted:
             run.count('histories_with_encrypted_sessions')
+        # resource accounting: what a history leaves behind once every
+        # connection has ended (descriptors, networking threads)
+        res_hist.append((resources(), actions))
+        run.count('resource_samples')
         run.case(('hist', actions, encrypted))
         if err:
             run.inconclusive_because('history %r: %s' % (actions, err))
         elif len(run.samples) < 3 and len(actions) >= 3:
             run.sample({'history': actions})
+    if res_hist:
+        time.sleep(0.2)
+        fds_end, thr_end = resources()
+        grow = fds_end - res0[0]
+        run.extra['descriptors_start_end'] = (res0[0], fds_end)
+        if grow > 8 or thr_end > res0[1]:
+            # find the first history after which the count stayed higher
+            first = next((a for (r, a) in res_hist if r[0] > res0[0] + 2 or
+                          r[1] > res0[1]), None)
+            run.violation('resources/left-behind', 'after %d histories (every '
+                          'connection ended) the process holds more '
+                          'descriptors or networking threads than before'
+                          % len(res_hist), {
+                              'descriptors': (res0[0], fds_end),
+                              'networking_threads': (res0[1], thr_end),
+                              'first_history_after_which': first})
     for i in range(40 if thorough else 8):
         if not run.mine(i):
             continue
@@ -1279,5 +1309,6 @@ def run(run):
     run.require('check_vs_lock_cases', 2)
     run.require('stale_read_cases', 2)
     run.require('final_reuse_probes', 20)
+    run.require('resource_samples', 20)
     run.require('disconnects_of_stalled', 3)
     run.require('histories_with_encrypted_sessions', 10)
